@@ -181,6 +181,23 @@ Example C01_resolve_runs :
   find_path s 3 = Some [b "a"; b "b"; b "f"].
 Proof. vm_compute. repeat split. Qed.
 
+(* the same with openat2 absent everywhere -- the configuration in which the emulated
+   resolver is used in practice: check_current then reaches fd/N through the EMULATED procfs
+   resolver (thread-self is a symlink it follows component by component, each step's mount id
+   verified).  Executed, not proved in general: for this configuration the general statement
+   keeps the premise of C01_resolve_refines_walk. *)
+Example C01_resolve_runs_without_openat2 :
+  let s := FSModel.build [FSModel.MkDir [b "a"]; FSModel.MkDir [b "a"; b "b"]; FSModel.MkFile [b "a"; b "b"; b "f"]; FSModel.MkLnk [b "esc"] (b "../../..");
+                  FSModel.MkLnk [b "a"; b "up"] (b "../a/b"); FSModel.MkLnk [b "abs"] (b "/a")] in
+  let gh := {| ph_fd := 4; ph_mnt := Some PROC_MNT; ph_subset := false; ph_openat2 := false |} in
+  let t := [(5%Z, ROOT); (4%Z, PB s)] in
+  (match run s (b "/srv/root") t (as_unsafe_path 1 false 2 gh 5) with
+   | Done t' (Ok p) => (Some p, length t') | _ => (None, 0%nat) end) = (Some (b "/srv/root"), 2%nat) /\
+  (match run s (b "/srv/root") t (opath_resolve_root 1 false 2 gh 1 5 (b "esc/a/up/../b/f") false false) with
+   | Done t' (Ok fd) => (tget t' fd, length t')
+   | _ => (None, 0%nat) end) = (Some 3%nat, 3%nat).
+Proof. vm_compute. split; reflexivity. Qed.
+
 (* non-vacuity: the premises are met by a concrete tree and check routine, and the
    program really runs to the kernel's answer there *)
 Example C01_program_concrete :
